@@ -118,14 +118,26 @@ func genBlob(t *rapid.T, label string, mts []string) BlobRef {
 	return BlobRef{MT: rapid.SampledFrom(mts).Draw(t, label+"MT"), Seed: rapid.IntRange(0, 5).Draw(t, label+"Seed"), Size: rapid.IntRange(0, 40).Draw(t, label+"Size"), Present: rapid.IntRange(0, 3).Draw(t, label+"Present") != 0}
 }
 
+// nearMT inserts one printable ASCII character into a short valid media type: the
+// result is valid or not as the reference recogniser says (most insertions of
+// punctuation are not).
+func nearMT(t *rapid.T, label string) string {
+	base := rapid.SampledFrom([]string{"application/vnd.demo.v1", "a/b", "x1/y-z_0.9+q", "text/plain"}).Draw(t, label+"Base")
+	at := rapid.IntRange(0, len(base)).Draw(t, label+"At")
+	ch := byte(rapid.IntRange(0x20, 0x7e).Draw(t, label+"Ch"))
+	return base[:at] + string(ch) + base[at:]
+}
+
 func genCase(t *rapid.T) Case {
 	c := Case{}
 	c.API = rapid.SampledFrom([]string{"v1.0", "v1.0", "v1.1", "v1.1", "v1.1", "v1.1rc4", "v0", "v3", "pack-image", "pack-artifact"}).Draw(t, "api")
 	switch rapid.IntRange(0, 9).Draw(t, "atClass") {
 	case 0:
 		c.ArtifactType = ""
-	case 1, 2:
+	case 1:
 		c.ArtifactType = rapid.SampledFrom(invalidMTs).Draw(t, "atInvalid")
+	case 2:
+		c.ArtifactType = nearMT(t, "atNear")
 	default:
 		c.ArtifactType = rapid.SampledFrom(validMTs).Draw(t, "atValid")
 	}
@@ -135,6 +147,9 @@ func genCase(t *rapid.T) Case {
 			mts = invalidMTs
 		}
 		b := genBlob(t, "cfg", mts)
+		if rapid.IntRange(0, 5).Draw(t, "cfgNear") == 0 {
+			b.MT = nearMT(t, "cfgNear")
+		}
 		if rapid.IntRange(0, 2).Draw(t, "cfgEmptyJSON") == 0 {
 			// the caller's config is the two bytes "{}" (what v1.0 packing invents,
 			// or an empty config under the caller's own media type)
@@ -144,6 +159,10 @@ func genCase(t *rapid.T) Case {
 	}
 	if rapid.Bool().Draw(t, "hasCfgAnn") {
 		c.ConfigAnn = map[string]string{"cfg": "ann"}
+		if rapid.IntRange(0, 2).Draw(t, "cfgTitle") == 0 {
+			// a named config: the file store keeps it under that name
+			c.ConfigAnn["org.opencontainers.image.title"] = "config.json"
+		}
 	}
 	switch rapid.IntRange(0, 4).Draw(t, "layersMode") {
 	case 0:
@@ -187,7 +206,7 @@ func genCase(t *rapid.T) Case {
 	if c.CreatedClass != "" && c.AnnNil {
 		c.AnnNil = false
 	}
-	c.Target = rapid.SampledFrom([]string{"memory", "oci", "file", "pusher-only"}).Draw(t, "target")
+	c.Target = rapid.SampledFrom([]string{"memory", "oci", "file", "file-cas", "pusher-only"}).Draw(t, "target")
 	c.PreEmpty = rapid.IntRange(0, 3).Draw(t, "preEmpty") == 0
 	if rapid.IntRange(0, 5).Draw(t, "fault") == 0 {
 		c.FailPush = rapid.IntRange(1, 3).Draw(t, "failPush")
@@ -441,11 +460,12 @@ func newTarget(kind, dir string) (content.Storage, func(), error) {
 	case "oci":
 		s, err := oci.New(dir)
 		return s, func() {}, err
-	case "file":
+	case "file", "file-cas":
 		s, err := file.New(dir)
 		if err != nil {
 			return nil, nil, err
 		}
+		s.ForceCAS = kind == "file-cas"
 		return s, func() { s.Close() }, nil
 	}
 	return memory.New(), func() {}, nil
@@ -478,12 +498,16 @@ func runCase(c Case) (res vt.Result, fail *vt.Fail) {
 			continue
 		}
 		d := b.desc()
-		d.Annotations = nil
+		if c.Target != "file-cas" {
+			// (a file store that does not restore duplicates must be given the
+			// blob under the name the manifest will use)
+			d.Annotations = nil
+		}
 		if d.MediaType == gen.MTImage {
 			// a subject must be a manifest; it is only referenced, store it as an opaque blob elsewhere
 			continue
 		}
-		if err := base.Push(ctx, d, bytes.NewReader(b.bytes())); err != nil && !errors.Is(err, errdef.ErrAlreadyExists) {
+		if err := base.Push(ctx, d, bytes.NewReader(b.bytes())); err != nil && !errors.Is(err, errdef.ErrAlreadyExists) && !errors.Is(err, file.ErrDuplicateName) {
 			return res, vt.Failf("harness/prepush", "%v", err)
 		}
 	}
